@@ -623,7 +623,7 @@ fn gen_case(cs: u64, tier: Tier) -> Case {
         0..=5 => {
             let cfgs = all_configs();
             let big = tier == Tier::Thorough && r.chance(1, 10);
-            let program = gen_program(&mut r, &GenProgOpts { max_pages: 3, tricky_text: true, images: true, big_images: big, rich: false });
+            let program = gen_program(&mut r, &GenProgOpts { max_pages: 3, tricky_text: true, images: true, big_images: big, rich: false, tricky_names: false });
             // object-stream configurations make the writer number its object streams from 1,000,000,
             // so their xref streams carry a million entries (~1.5 s per preset to read): keep them rare
             let mut cfg = cfgs[r.usize_below(cfgs.len())].clone();
